@@ -84,7 +84,7 @@ def run(chk, tier):
             self.root = root
 
         def stub(self, interp, st, path, c, args, t, caller):
-            if path.endswith(">::into_sql_builder") and path != self.root:
+            if path.endswith("::into_sql_builder") and path != self.root:
                 return [(st, ("call", "child", tuple(args), "R"))]
             return None
 
